@@ -32,7 +32,7 @@ RULES = {
     "batch-after-exhausted-evals": [A("ULT(x, 3)"), A("ULT(z, 2)"), {"s": 0, "op": "eval", "e": "x", "n": 5, "extra": []},
                                     {"s": 0, "op": "eval", "e": "z", "n": 5, "extra": []},
                                     {"s": 0, "op": "batch_eval", "es": ["x", "z"], "n": 20, "extra": []},
-                                    {"s": 0, "op": "batch_eval", "es": ["z", "x + ZeroExt(1, y)"], "n": 300, "extra": []}],
+                                    {"s": 0, "op": "batch_eval", "es": ["z", "x + ZeroExt(1, y)"], "n": 40, "extra": []}],
     "signed-min-from-eval-cache": [A("Or(x == 1, x == 15)"), {"s": 0, "op": "eval", "e": "x", "n": 5, "extra": []},
                                    {"s": 0, "op": "min", "e": "x", "signed": True, "extra": []},
                                    {"s": 0, "op": "max", "e": "x", "signed": True, "extra": []}],
